@@ -150,3 +150,182 @@ theorem step (hr : 0 < c.ratio) (s : Sys) (i : AxlM × AxlOracle) (hinv : Inv c 
   · exact step_other c hr s i hinv hok hst
 
 end Litex.Bridge.DownW
+
+/-! ## read path -/
+namespace Litex.Bridge.DownR
+open Litex Litex.Bridge
+
+theorem shift_step (B old P w r k : Nat) (hB : 0 < B) (hk : k < r) :
+    (old / B ^ k + P * B ^ (r - k)) / B + w * B ^ (r - 1) =
+      old / B ^ (k + 1) + (P + w * B ^ k) * B ^ (r - (k + 1)) := by
+  obtain ⟨e, rfl⟩ : ∃ e, r = k + 1 + e := ⟨r - (k + 1), by omega⟩
+  have h1 : k + 1 + e - k = e + 1 := by omega
+  have h2 : k + 1 + e - 1 = k + e := by omega
+  have h3 : k + 1 + e - (k + 1) = e := by omega
+  rw [h1, h2, h3, Nat.pow_succ, ← Nat.mul_assoc, Nat.add_mul_div_right _ _ hB, Nat.div_div_eq_div_mul, ← Nat.pow_succ,
+    Nat.add_mul, Nat.pow_add, Nat.mul_assoc, Nat.add_assoc]
+
+theorem shift_bound (B x w r : Nat) (hr : 0 < r) (hx : x < B ^ r) (hw : w < B) :
+    x / B + w * B ^ (r - 1) < B ^ r := by
+  obtain ⟨e, rfl⟩ : ∃ e, r = e + 1 := ⟨r - 1, by omega⟩
+  have hB : 0 < B := by omega
+  simp only [Nat.add_sub_cancel]
+  rw [Nat.pow_succ] at hx ⊢
+  have h1 : x / B < B ^ e := by
+    rw [Nat.div_lt_iff_lt_mul hB]; exact hx
+  have h2 : (w + 1) * B ^ e ≤ B * B ^ e := Nat.mul_le_mul_right _ hw
+  rw [Nat.add_mul, Nat.one_mul] at h2
+  rw [Nat.mul_comm (B ^ e) B]
+  omega
+
+variable (c : DownCfg)
+
+/-- `r_data` after the sub-words `0 … k-1` of the wide word at `a` have been shifted in. -/
+def partial_ (s : Sys) (a k : Nat) : Prop :=
+  s.br.rData = s.old / (256 ^ c.nbTo) ^ k + pack c (subWord c s.g.ref a) k * (256 ^ c.nbTo) ^ (c.ratio - k)
+
+def Inv (s : Sys) : Prop :=
+  s.br.resp = respOkay ∧ s.br.rData < (256 ^ c.nbTo) ^ c.ratio ∧ s.p.mem = s.g.ref ∧
+  s.p.awq = [] ∧ s.p.wq = [] ∧ s.p.bq = [] ∧ s.g.pendAW = none ∧ s.g.pendW = none ∧ s.g.heldB = none ∧
+  match s.br.st with
+  | .idle => s.p.arq = [] ∧ s.p.rq = [] ∧ s.g.pendAR = none ∧ s.g.heldR = none
+  | .convert =>
+    s.br.counter < c.ratio ∧ s.p.arq = [] ∧ s.p.rq = [] ∧ s.g.pendAR = none ∧ s.g.heldR = none ∧
+    s.old < (256 ^ c.nbTo) ^ c.ratio ∧ ∃ a, s.g.heldAR = some a ∧ partial_ c s a s.br.counter
+  | .respSlave =>
+    s.br.counter < c.ratio ∧ s.g.pendAR = none ∧ s.g.heldR = none ∧ s.old < (256 ^ c.nbTo) ^ c.ratio ∧
+    ∃ a, s.g.heldAR = some a ∧ partial_ c s a s.br.counter ∧
+      ((s.p.arq = [c.subAddr a s.br.counter] ∧ s.p.rq = []) ∨
+       (s.p.arq = [] ∧ s.p.rq = [(respOkay, subWord c s.g.ref a s.br.counter)]))
+  | .respMaster =>
+    s.br.counter + 1 = c.ratio ∧ s.p.arq = [] ∧ s.p.rheld = true ∧ s.old < (256 ^ c.nbTo) ^ c.ratio ∧
+    ∃ a, s.g.pendAR = some a ∧ partial_ c s a s.br.counter ∧
+      s.p.rq = [(respOkay, subWord c s.g.ref a s.br.counter)] ∧
+      (s.g.heldR = none ∨ s.g.heldR = some (respOkay, wideRd c s.g.ref a))
+
+def Good (s : Sys) (i : AxlM × AxlOracle) : Prop :=
+  s.g.rspHeld (sysOut c s i).1 ∧
+  ((sysOut c s i).1.rvalid = true →
+     ∃ a, s.g.pendAR = some a ∧ (sysOut c s i).1.rresp = respOkay ∧ (sysOut c s i).1.rdata = wideRd c s.g.ref a) ∧
+  (i.1.arvalid = true → (sysOut c s i).1.arready = true → s.g.pendAR = none)
+
+theorem final_eq (B old P w r k rd : Nat) (hB : 0 < B) (hk : k + 1 = r) (ho : old < B ^ r)
+    (h : rd = old / B ^ k + P * B ^ (r - k)) : rd / B + w * B ^ (r - 1) = P + w * B ^ k := by
+  subst h
+  rw [shift_step B old P w r k hB (by omega), hk, Nat.sub_self, Nat.pow_zero, Nat.mul_one, Nat.div_eq_of_lt ho,
+    Nat.zero_add]
+
+set_option maxHeartbeats 1000000 in
+theorem step_a (hr : 0 < c.ratio) (s : Sys) (i : AxlM × AxlOracle) (hinv : Inv c s) (hok : s.g.reqHeld i.1)
+    (hst : s.br.st = .idle ∨ s.br.st = .convert) : Good c s i ∧ Inv c ((sys c s.g.ref).next s i) := by
+  obtain ⟨⟨st, counter, resp, rData⟩, ⟨mem, awq, wq, bq, arq, rq, bheld, rheld⟩,
+    ⟨heldAW, heldW, heldAR, heldB, heldR, pendAW, pendW, pendAR, ref⟩, old⟩ := s
+  obtain ⟨⟨awvalid, awaddr, wvalid, wdata, wstrb, bready, arvalid, araddr, rready⟩,
+    ⟨oawready, owready, oarready, wexec, rexec, bgo, rgo⟩⟩ := i
+  obtain ⟨h1, h2, h3, h4, h5, h6, h7, h8, h9, hinv⟩ := hinv
+  simp only at h1 h2 h3 h4 h5 h6 h7 h8 h9 hst
+  subst h1 h3 h4 h5 h6 h7 h8 h9
+  simp only [AxlGhost.reqHeld] at hok
+  have hB : 0 < 256 ^ c.nbTo := Nat.pow_pos (by decide)
+  rcases hst with rfl | rfl
+  · simp only at hinv
+    obtain ⟨g1, g2, g3, g4⟩ := hinv
+    subst g1 g2 g3 g4
+    cases arvalid <;>
+      simp [Inv, Good, partial_, pack, sys, sysOut, toSlave, toMaster, next, nextFsm, reset, init, AxlMem.out,
+        AxlMem.next, AxlGhost.next, AxlGhost.rspHeld, AxlS.idle, AxlM.idle, hr, h2]
+  · simp only at hinv
+    obtain ⟨g1, g2, g3, g4, g5, g6, a, g7, g8⟩ := hinv
+    subst g2 g3 g4 g5
+    obtain ⟨hav, rfl⟩ := hok.2.2 a g7
+    subst hav
+    simp only [partial_] at g8
+    cases oarready <;>
+      simp [Inv, Good, partial_, sys, sysOut, toSlave, toMaster, next, nextFsm, reset, init, AxlMem.out,
+        AxlMem.next, AxlGhost.next, AxlGhost.rspHeld, AxlS.idle, AxlM.idle, g1, g6, h2, g8.symm]
+
+set_option maxHeartbeats 1000000 in
+theorem step_b (hr : 0 < c.ratio) (s : Sys) (i : AxlM × AxlOracle) (hinv : Inv c s) (hok : s.g.reqHeld i.1)
+    (hst : s.br.st = .respSlave) : Good c s i ∧ Inv c ((sys c s.g.ref).next s i) := by
+  obtain ⟨⟨st, counter, resp, rData⟩, ⟨mem, awq, wq, bq, arq, rq, bheld, rheld⟩,
+    ⟨heldAW, heldW, heldAR, heldB, heldR, pendAW, pendW, pendAR, ref⟩, old⟩ := s
+  obtain ⟨⟨awvalid, awaddr, wvalid, wdata, wstrb, bready, arvalid, araddr, rready⟩,
+    ⟨oawready, owready, oarready, wexec, rexec, bgo, rgo⟩⟩ := i
+  obtain ⟨h1, h2, h3, h4, h5, h6, h7, h8, h9, hinv⟩ := hinv
+  simp only at h1 h2 h3 h4 h5 h6 h7 h8 h9 hst
+  subst h1 h3 h4 h5 h6 h7 h8 h9 hst
+  simp only [AxlGhost.reqHeld] at hok
+  have hB : 0 < 256 ^ c.nbTo := Nat.pow_pos (by decide)
+  simp only at hinv
+  obtain ⟨g1, g3, g4, g6, a, g7, g8, g9⟩ := hinv
+  subst g3 g4
+  obtain ⟨hav, rfl⟩ := hok.2.2 a g7
+  subst hav
+  simp only [partial_] at g8
+  rcases g9 with ⟨q1, q2⟩ | ⟨q1, q2⟩
+  · subst q1 q2
+    cases rexec <;>
+      simp [Inv, Good, partial_, subWord, sys, sysOut, toSlave, toMaster, next, nextFsm, reset, init, AxlMem.out,
+        AxlMem.next, AxlGhost.next, AxlGhost.rspHeld, AxlS.idle, AxlM.idle, g1, g6, h2, g8.symm, respOkay]
+  · subst q1 q2
+    by_cases hl : counter = c.ratio - 1
+    · have hk : counter + 1 = c.ratio := by omega
+      have hl' : c.ratio - 1 = counter := hl.symm
+      cases rheld <;> cases rgo <;>
+        simp [Inv, Good, partial_, sys, sysOut, toSlave, toMaster, next, nextFsm, reset, init, lastWord, AxlMem.out,
+          AxlMem.next, AxlGhost.next, AxlGhost.rspHeld, AxlS.idle, AxlM.idle, g1, g6, h2, g8.symm, respOkay, hl', hk]
+    · have hk : counter + 1 < c.ratio := by omega
+      have hp : 256 ^ ((c.ratio - 1) * c.nbTo) = (256 ^ c.nbTo) ^ (c.ratio - 1) := Nat.pow_mul' _ _ _
+      have hmod : (counter + 1) % c.ratio = counter + 1 := Nat.mod_eq_of_lt hk
+      have hw : subWord c mem araddr counter % 256 ^ c.nbTo < 256 ^ c.nbTo := Nat.mod_lt _ hB
+      have hbound := shift_bound (256 ^ c.nbTo) rData (subWord c mem araddr counter % 256 ^ c.nbTo) c.ratio hr h2 hw
+      have hstep := shift_step (256 ^ c.nbTo) old (pack c (subWord c mem araddr) counter)
+        (subWord c mem araddr counter % 256 ^ c.nbTo) c.ratio counter hB g1
+      rw [← g8] at hstep
+      have hbound' := hbound
+      rw [hstep] at hbound'
+      cases rheld <;> cases rgo <;>
+        simp [Inv, Good, partial_, pack, sys, sysOut, toSlave, toMaster, next, nextFsm, reset, init, lastWord, rdataOut,
+          AxlMem.out, AxlMem.next, AxlGhost.next, AxlGhost.rspHeld, AxlS.idle, AxlM.idle, g1, g6, h2, g8.symm, respOkay,
+          hl, hk, hmod, hp, hbound', hstep]
+
+set_option maxHeartbeats 1000000 in
+theorem step_c (hr : 0 < c.ratio) (s : Sys) (i : AxlM × AxlOracle) (hinv : Inv c s) (hok : s.g.reqHeld i.1)
+    (hst : s.br.st = .respMaster) : Good c s i ∧ Inv c ((sys c s.g.ref).next s i) := by
+  obtain ⟨⟨st, counter, resp, rData⟩, ⟨mem, awq, wq, bq, arq, rq, bheld, rheld⟩,
+    ⟨heldAW, heldW, heldAR, heldB, heldR, pendAW, pendW, pendAR, ref⟩, old⟩ := s
+  obtain ⟨⟨awvalid, awaddr, wvalid, wdata, wstrb, bready, arvalid, araddr, rready⟩,
+    ⟨oawready, owready, oarready, wexec, rexec, bgo, rgo⟩⟩ := i
+  obtain ⟨h1, h2, h3, h4, h5, h6, h7, h8, h9, hinv⟩ := hinv
+  simp only at h1 h2 h3 h4 h5 h6 h7 h8 h9 hst
+  subst h1 h3 h4 h5 h6 h7 h8 h9 hst
+  have hB : 0 < 256 ^ c.nbTo := Nat.pow_pos (by decide)
+  simp only at hinv
+  obtain ⟨g1, g2, g5, g6, a, g7, g8, g9, g10⟩ := hinv
+  subst g2 g5 g7 g9
+  simp only [partial_] at g8
+  have hp : 256 ^ ((c.ratio - 1) * c.nbTo) = (256 ^ c.nbTo) ^ (c.ratio - 1) := Nat.pow_mul' _ _ _
+  have hw : subWord c mem a counter % 256 ^ c.nbTo < 256 ^ c.nbTo := Nat.mod_lt _ hB
+  have hbound := shift_bound (256 ^ c.nbTo) rData (subWord c mem a counter % 256 ^ c.nbTo) c.ratio hr h2 hw
+  have hfin := final_eq (256 ^ c.nbTo) old (pack c (subWord c mem a) counter)
+    (subWord c mem a counter % 256 ^ c.nbTo) c.ratio counter rData hB g1 g6 g8
+  have hwide : wideRd c mem a = pack c (subWord c mem a) counter +
+      subWord c mem a counter % 256 ^ c.nbTo * (256 ^ c.nbTo) ^ counter := by
+    simp [wideRd, ← g1, pack]
+  rw [← hwide] at hfin
+  have hbound' := hbound
+  rw [hfin] at hbound'
+  rcases g10 with g10 | g10 <;> subst g10 <;> cases rready <;>
+    simp [Inv, Good, sys, sysOut, toSlave, toMaster, next, nextFsm, reset, init, rdataOut, AxlMem.out, AxlMem.next,
+      AxlGhost.next, AxlGhost.rspHeld, AxlS.idle, AxlM.idle, respOkay, hp, hfin, hbound', h2, g1, g6, partial_,
+      g8.symm]
+
+theorem step (hr : 0 < c.ratio) (s : Sys) (i : AxlM × AxlOracle) (hinv : Inv c s) (hok : s.g.reqHeld i.1) :
+    Good c s i ∧ Inv c ((sys c s.g.ref).next s i) := by
+  rcases hst : s.br.st with _ | _ | _ | _
+  · exact step_a c hr s i hinv hok (Or.inl hst)
+  · exact step_a c hr s i hinv hok (Or.inr hst)
+  · exact step_b c hr s i hinv hok hst
+  · exact step_c c hr s i hinv hok hst
+
+end Litex.Bridge.DownR
